@@ -279,7 +279,48 @@ fn check_long(ctx: &mut Ctx, section: &str, prog: &[S]) -> Vec<Violation> {
     out
 }
 
+/// functions whose body does not end in an expression (empty, let, while, loop, nested fn, block, if without
+/// value, bare return) leave through the plain `Return` instruction; every way of calling them must balance
+fn fn_endings(ctx: &mut Ctx) {
+    let bodies = [
+        "", "let a = n;", "let i = 0; while i < n { i = i + 1; }", "loop { break; }", "fn g() { 1 }", "{ let b = 1; }", "if n > 0 { let c = 1; }", "n; let z = 1;", "while false { }", "return;",
+        "if n > 1 { return; } let k = 2;", "match n { 1 => { let q = 1; }, _ => { } }", "let h = fn() { 1 };", "if n > 0 { n; } else { let e = 0; }",
+    ];
+    let contexts = ["f(2);", "let x = f(2);", "[f(1), f(2), f(3)];", "f(f(1));", "if f(1) { 1; } else { 2; }", "map {1: f(1)};", "let y = [f(1)][0];", "str(f(1));", "f(1) == f(2);", "let w = 0; while w < 3 { f(w); w = w + 1; }"];
+    let mut idx = 0u64;
+    for (bi, body) in bodies.iter().enumerate() {
+        for style in 0..2 {
+            let def = if style == 0 { format!("fn f(n) {{ {} }}", body) } else { format!("let f = fn(n) {{ {} }};", body) };
+            for (ci, c) in contexts.iter().enumerate() {
+                idx += 1;
+                if !ctx.mine(idx) {
+                    continue;
+                }
+                let prog = vec![S::Raw(def.clone()), S::Raw(c.to_string()), S::Raw("f(3);".to_string())];
+                ctx.class("fn-ending");
+                for v in check_statements(ctx, "fn-endings", &prog) {
+                    ctx.report(v);
+                }
+                // the same call 6000 times must not exhaust the operand stack
+                if ci == 0 {
+                    let looped = format!("{}\nlet i = 0;\nwhile i < 6000 {{ f(1); i = i + 1; }}\ni", def);
+                    let mut sess = Session::new();
+                    if let Step::Ran(r) = sess.step(&looped) {
+                        let ok = r.err.is_none() && r.last.same(&super::super::p2::Val::Int(6000));
+                        ctx.case(hash_str(&looped), true);
+                        if !ok {
+                            let sig = if r.err.as_ref().map(|e| e.0.contains("Stack overflow")).unwrap_or(false) { "stack-overflow-in-loop" } else { "long-loop-result" };
+                            ctx.report(Violation::new("fn-endings", sig, format!("6000 calls of a function whose body is `{}` (#{}) ended with {:?} / value {}\n{}", body, bi, r.err, r.last.show(), looped), json!({"prog": [S::Raw(looped.clone())], "src": looped})));
+                        }
+                    }
+                }
+            }
+        }
+    }
+}
+
 pub fn run(ctx: &mut Ctx) {
+    fn_endings(ctx);
     let n = ctx.nshards as u32;
     // mode A: no jumps in operand positions (every imbalance is novel)
     drive(ctx, "statements", ctx.tier.pick(40_000, 1_000_000) / n, 16, 400, |ctx, bytes| {
